@@ -7,7 +7,7 @@
    more and no theorem carries an exception for a finding. *)
 From Coq Require Import List Arith ZArith NArith Bool Lia String.
 Import ListNotations.
-Require Import FV.Base.Util FV.Gen.C17 FV.C17.Model FV.C17.Lemmas FV.C17.LemmasSeq FV.C17.Counter.
+Require Import FV.Base.Util FV.Gen.C17 FV.C17.Model FV.C17.Lemmas FV.C17.LemmasSeq FV.C17.LemmasLink FV.C17.Counter.
 
 (* obligations on the facts regenerated from /repo (Gen/C17.v): the code has the shape the model assumes *)
 Theorem C17_source_facts :
@@ -79,6 +79,16 @@ Proof.
   unfold save_file.
   apply (exec_nofault_agrees data n (save_ops n) None (sv0 d)); [apply save_ops_safe|exact I|reflexivity].
 Qed.
+
+(* crash faults and crash indices are the same thing: the crash-before (crash-after) fault of the control model at
+   the operation of index k of the save leaves the disk of the plain run of the first k (k+1) operations - so
+   C17_crash_atomic_save (faults named by operation) and C17_crash_atomic_all_points (crash points by index) speak
+   about the same crash states *)
+Theorem C17_crash_fault_is_crash_point : forall data n d k o,
+  nth_error (save_ops n) k = Some o ->
+  s_disk (save_file (Some (o, KCrashBefore)) data n d) = fs_run data n (firstn k (save_ops n)) d /\
+  s_disk (save_file (Some (o, KCrashAfter)) data n d) = fs_run data n (firstn (S k) (save_ops n)) d.
+Proof. exact crash_index_is_prefix. Qed.
 
 (* the obligation behind it: a removal of the stored file before the rename (the portability idiom "os.rename does
    not overwrite everywhere") is rejected by seq_safe and really breaks the property - a crash between the two calls,
@@ -218,6 +228,7 @@ Print Assumptions C17_crash_atomic_all_points.
 Print Assumptions C17_crash_atomic_any_sequence.
 Print Assumptions C17_save_ops_safe.
 Print Assumptions C17_fault_free_save_is_save_ops.
+Print Assumptions C17_crash_fault_is_crash_point.
 Print Assumptions C17_remove_before_rename_breaks_atomicity.
 Print Assumptions C17_crash_atomic_step.
 Print Assumptions C17_never_partial.
